@@ -11,6 +11,7 @@ type Part struct {
 	Thorough int // runs in the thorough tier
 	Gen      func(seed uint64) *RunSpec
 	Opts     RunOpts
+	Exec     func(spec *RunSpec, opts RunOpts) *RunResult // nil: ExecuteAny
 }
 
 // Plan is how a property is decided.
@@ -120,6 +121,17 @@ func Plans() map[string]*Plan {
 			},
 			Rule:       "S-CONC and S-CRASH-RAND; list-integrity checked after every mutating filesystem call of every process and after every crash; non-trivial = >=3 schedule segments and >=2 list versions; distinct = distinct projected event-sequence hash",
 			Nontrivial: concNontrivial}
+	}
+	// ---- C06
+	{
+		p := baseProfile()
+		ps["C06"] = &Plan{Prop: "C06", Level: "fault_enumeration",
+			Parts: []Part{
+				{Name: "S-CRASH-ENUM", Quick: 700, Thorough: 40000, Gen: func(seed uint64) *RunSpec { return GenCrashEnum("C06", seed) }, Exec: ExecCrashEnum},
+				crashPart("C06", "S-CRASH-RAND", 3000, 150000, p, RunOpts{}),
+			},
+			Rule: "S-CRASH-ENUM: seeded prefix history (0-8 ops, 2 handles, swarm Config) + one target operation (Add, multi-table Addition, CompactAll, expiry, range compaction, AutoCompact, Clean, Close, reopen); the process is killed immediately before EVERY one of the target's K filesystem calls (exhaustive per instance), then a possibly stale survivor process and a fresh process continue. evaluations = executions (one per crash point, plus the crash-free baseline of each instance, plus S-CRASH-RAND runs); distinct_nontrivial = distinct (target operation kind, kind of the call the crash preceded, class of its path, position bucket inside the operation) combinations actually crashed at",
+			Nontrivial: func(r *RunResult) bool { return r.Crashes > 0 }}
 	}
 	// ---- C07
 	{
